@@ -3,6 +3,7 @@ package sx
 import (
 	"go/token"
 	"go/types"
+	"reflect"
 
 	"gosx/smt"
 
@@ -156,6 +157,44 @@ func init() {
 		c := e.clock()
 		c.minNext = e.ctx.Add(c.last, args[0].(*smt.Term))
 		return nil
+	}
+	// zzAssignByTag(v interface{}, tag string, kv map[string]interface{}) string
+	zzapi["zzAssignByTag"] = func(e *Engine, args []Value, fn *ssa.Function) Value {
+		iv := args[0].(Iface)
+		tag := strArg(e, args[1])
+		kv, _ := args[2].(*MapObj)
+		pt, ok := iv.T.(*types.Pointer)
+		if !ok {
+			return Str{}
+		}
+		st, ok := pt.Elem().Underlying().(*types.Struct)
+		p, ok2 := iv.V.(Ptr)
+		if !ok || !ok2 || p.Obj == nil {
+			return Str{}
+		}
+		names := ""
+		for i := 0; i < st.NumFields(); i++ {
+			name := reflect.StructTag(st.Tag(i)).Get(tag)
+			if i > 0 {
+				names += ","
+			}
+			names += name
+			if kv == nil || name == "" {
+				continue
+			}
+			for k, key := range kv.Keys {
+				ks, ok := key.(Str)
+				if !ok || !ks.IsConcrete() || ks.Concrete() != name {
+					continue
+				}
+				val := kv.Vals[k]
+				if iv, ok := val.(Iface); ok {
+					val = iv.V
+				}
+				e.store(e.sub(p.Obj, i), val)
+			}
+		}
+		return Str{S: names}
 	}
 	zzapi["zzSameObject"] = func(e *Engine, args []Value, fn *ssa.Function) Value {
 		a, b := args[0].(Iface), args[1].(Iface)
